@@ -15,6 +15,7 @@ from pipefunc._utils import dump, load
 
 from ._base import (
     StorageBase,
+    check_linear_index,
     iterate_shape_indices,
     normalize_key,
     register_storage,
@@ -85,10 +86,12 @@ class FileArray(StorageBase):
 
     def get_from_index(self, index: int) -> Any:
         """Return the data associated with the given linear index."""
+        check_linear_index(index, self.size)
         return load(self._index_to_file(index))
 
     def has_index(self, index: int) -> bool:
         """Return whether the given linear index exists."""
+        check_linear_index(index, self.size)
         return self._index_to_file(index).is_file()
 
     def _files(self) -> Iterator[Path]:
